@@ -39,7 +39,7 @@ CLAIMED = {
                 '(8) en-passant mask tables and guard; (9) every fresh en-passant store is normalised as readFEN does. Three genuine violations on the pinned '
                 'tree are listed in known_findings.json (compact form: 8-bit clock, 16-bit move number; makeMove keeps an illegal en-passant square). Right level: "after any history the '
                 'incremental value equals the recomputed one" holds iff every mutator updates every derived attribute consistently - a '
-                'finite set of structural obligations that cover every history, where a random walk samples. (10) one-argument setters of Position store their argument unchanged. (11) makeSEEMove / unMakeSEEMove remove and restore the same en-passant victim, evaluated for every mover piece and every outcome of the opaque comparisons.',
+                'finite set of structural obligations that cover every history, where a random walk samples. (10) one-argument setters of Position store their argument unchanged. (11) makeSEEMove / unMakeSEEMove remove and restore the same en-passant victim, evaluated for every mover piece and every outcome of the opaque comparisons. (12) the normaliser TextIO::fixupEPSquare keeps an en-passant square exactly for a legal move of the mover\'s pawn to it (all 12 pieces x 2 destinations), scans legal moves only and clears the square otherwise.',
         'design_ref': 'DESIGN.md section 2, C02',
         'note': TB + ' Does not decide value-level equalities (hash equality of rule-equal positions beyond the en-passant normal form).',
         'technique': 'custom static analysis: write-set/effect analysis, colour-mirror and sibling agreement on CFG regions, dominance-based save/restore and pairing, constant evaluation over the material polytope',
@@ -84,7 +84,7 @@ CLAIMED = {
                 'including ponder + ponderhit (found and fixed defect D11); (13) lock discipline of the session output stream: every '
                 'insertion holds one common mutex, which is never re-acquired or held across a wait (found and fixed defect D10). '
                 'Right level: these are exactly the failure shapes the property names (crash before initialisation, two/zero '
-                'bestmoves, output after bestmove), and they are visible in the shape of the code for all histories at once. C05.5 now decides that every way out of the protocol loop stops a running search (state flow); (14) every strength-limiting parameter forces a single search thread. (15) wait loops poll with a handler that counts the acknowledgements (shared with C10.10). (16) = C10.11: the two computations of `infinite` agree.',
+                'bestmoves, output after bestmove), and they are visible in the shape of the code for all histories at once. C05.5 now decides that every way out of the protocol loop stops a running search (state flow); (14) every strength-limiting parameter forces a single search thread. (15) wait loops poll with a handler that counts the acknowledgements (shared with C10.10). (16) = C10.11: the two computations of `infinite` agree. (17) = C10.12 isready never blocks on an engine thread that is holding its answer.',
         'design_ref': 'DESIGN.md section 2, C05',
         'note': TB + ' Assumes: bad_alloc from ordinary allocation and the embedded-network integrity error are out of scope (named exemptions).',
         'technique': 'custom static analysis: null typestate dataflow + exception-flow + must-pass-through/who-may-call over clang AST/CFG/call graph',
@@ -162,7 +162,7 @@ CLAIMED = {
                 'ack->poll until acknowledged, quit->poll until acknowledged, flag-sensitive "a search that ran is stopped"; (6) a wake-up '
                 'consumed by the engine thread\'s inner wait loop is re-armed or pending options are handled before it sleeps again; (7) the completion-flag typestate of optionsSetFinished (shared with C09.4). Right '
                 'level: these are the necessary structural conditions of "no lost wake-up / no stale result" for every interleaving; the '
-                'composed liveness property itself is model-checking territory and is not claimed. Added clause (9): the upward acknowledgement is sent only under a test of everything has<X>Ack() depends on. (10) agreement between acknowledgement wait loops and the handlers they poll with. (11) startSearch and ponderHit compute `infinite` from the same conjuncts.',
+                'composed liveness property itself is model-checking territory and is not claimed. Added clause (9): the upward acknowledgement is sent only under a test of everything has<X>Ack() depends on. (10) agreement between acknowledgement wait loops and the handlers they poll with. (11) startSearch and ponderHit compute `infinite` from the same conjuncts. (12) a blocking wait of the protocol thread on the engine thread (waitStop / waitOptionsSet) is reached only with both hold flags cleared or when no search object exists: no circular wait with the engine thread\'s `while (*ponder || *infinite)`.',
         'design_ref': 'DESIGN.md section 2, C10',
         'note': TB + ' Does not decide absence of deadlock / lost wake-up over all interleavings of the composed protocol.',
         'technique': 'custom static analysis: lock-set dataflow, condition-variable discipline, must-pass-through / loop-shape rules on the CFG, sibling agreement of purge predicates',
@@ -176,7 +176,7 @@ CLAIMED = {
                 'dropped only on reversible-move information; the first-new index is the history size; (4) every GameState has an arm '
                 '(5) the en-passant mask tables are built from squares whose file stays on the board and makeMove records an en-passant square only under the mask test. '
                 'in the state and PGN-result switches. Right level: "for every game history" - the stack discipline and test ordering '
-                'are history-independent necessary conditions; the index arithmetic of the repetition scan is value-level and not claimed. Added clauses (7) repetition scan index set / key / claim rule by finite evaluation and (8) en-passant normal form of every replayed history move (found and fixed defects D13, D14). (9) drawRuleEquals compares placement, side, castling rights and en-passant square completely.',
+                'are history-independent necessary conditions; the index arithmetic of the repetition scan is value-level and not claimed. Added clauses (7) repetition scan index set / key / claim rule by finite evaluation and (8) en-passant normal form of every replayed history move (found and fixed defects D13, D14). (9) drawRuleEquals compares placement, side, castling rights and en-passant square completely. (10) = C02.12 the en-passant normaliser the history relies on.',
         'design_ref': 'DESIGN.md section 2, C11',
         'note': TB + ' Does not decide the index arithmetic of canClaimDrawRep nor console claim semantics.',
         'technique': 'custom static analysis: push/pop pairing on the CFG, dominance (must-precede), flag-sensitive dataflow for the mate-before-draw ordering, guard-set checks, switch exhaustiveness',
@@ -189,7 +189,7 @@ CLAIMED = {
                 'nothing and after the whole-range draw sweep, and every time/stop test leads to return false; (3) exhaustive constant '
                 'evaluation over the 8-bit state domain shows the three answer predicates disjoint and false on every unfinished state, '
                 'and get(set(n)) == n; (4) region size/alignment/placement constants agree with the men guard. Right level: the abort '
-                'clause is a typestate property of one class, decidable for every abort point at once; distances themselves are value-level. Added clause (7): adjacent-duplicate filters of the generator and sortedness of the neighbour lists. (8) un-capture call order agrees with the special cases of TBIndex::setSquare. (7, extended) every neighbour-list loop of generate() skips adjacent duplicates, or the list is cut at std::unique where it is sorted.',
+                'clause is a typestate property of one class, decidable for every abort point at once; distances themselves are value-level. Added clause (7): adjacent-duplicate filters of the generator and sortedness of the neighbour lists. (8) un-capture call order agrees with the special cases of TBIndex::setSquare. (7, extended) every neighbour-list loop of generate() skips adjacent duplicates, or the list is cut at std::unique where it is sorted. (9) TBPosition::setPosition succeeds only after a sweep over every piece type that fails on a man that found no slot.',
         'design_ref': 'DESIGN.md section 2, C12',
         'note': TB + ' Does not decide the exactness of distance-to-mate values.',
         'technique': 'custom static analysis: typestate dataflow with sibling-method summaries, must-pass-through on the CFG, exhaustive constant evaluation over an 8-bit domain, constant agreement',
@@ -202,7 +202,7 @@ CLAIMED = {
                 '(2) aggressive probing is enabled only on the updateTB() == true path and probes respect minProbeDepth; (3) the PV '
                 'extension appends tablebase moves only inside the 50-move limit and only moves that keep the tablebase score. Right '
                 'level: the "not announced beyond the limit" clause is a gate-agreement fact for all positions and clocks; exact distances '
-                'and move choice are value-level (C12) and not claimed. Added clauses (5) generator typestate (shared with C12.1) and (6) a freshly generated table is consulted before the clock can abort the search (found and fixed defect D16). (7) placement order of the probe index (shared with C12.8). (8) = C12.7 duplicate filters present in every neighbour-list loop.',
+                'and move choice are value-level (C12) and not claimed. Added clauses (5) generator typestate (shared with C12.1) and (6) a freshly generated table is consulted before the clock can abort the search (found and fixed defect D16). (7) placement order of the probe index (shared with C12.8). (8) = C12.7 duplicate filters present in every neighbour-list loop. (9) = C12.9 a probe answers only for positions of the table\'s material class.',
         'design_ref': 'DESIGN.md section 2, C13',
         'note': TB + ' Does not decide exactness of reported distances or move choice.',
         'technique': 'custom static analysis: guard-set / sibling agreement of the probe blocks, constant evaluation of the margin function, dominance',
@@ -256,7 +256,7 @@ CLAIMED = {
                 'completeness of the path-error recompute set - the fields computePathError reads of the node itself / of its parents decide '
                 'which nodes updateScores must schedule when a recompute call reports a change (found and fixed defect D9). Right level: these are the structural necessary conditions of "links mutually '
                 'consistent", "save/reload reproduces the book" and "changes propagate"; the fixed-point equations themselves are '
-                'value-level over a DAG and are not claimed. Added: (2) the reader of the append-only backup log lets a later record replace the earlier one; (6) depth propagation completeness. (7) the parents of the node updateScores is called on are always recomputed.',
+                'value-level over a DAG and are not claimed. Added: (2) the reader of the append-only backup log lets a later record replace the earlier one; (6) depth propagation completeness. (7) the parents of the node updateScores is called on are always recomputed. (8) every change of a pending mark is followed by updateScores (directly or through a function that always recomputes) on every path.',
         'design_ref': 'DESIGN.md section 2, C19',
         'note': TB + ' Does not decide that scores are at the fixed point of the negamax / path-error / cost equations.',
         'technique': 'custom static analysis: call pairing on the CFG, who-may-write, sibling agreement of serialiser argument lists, snapshot/compare agreement',
